@@ -173,7 +173,10 @@ func render1(w writer, n *Node) error {
 			return err
 		}
 	}
-	if voidElements[n.Data] {
+	// Void elements exist only in the HTML namespace. A foreign element that
+	// shares a void element's name (such as the <input> in <svg><input>x</svg>)
+	// may have children; it is rendered like any other element.
+	if voidElements[n.Data] && (n.Namespace == "" || n.FirstChild == nil) {
 		if n.FirstChild != nil {
 			return fmt.Errorf("html: void element <%s> has child nodes", n.Data)
 		}
